@@ -7,9 +7,9 @@ package templater
 //@ use template "text/template"
 
 //@ func NewTextTemplater
-//@ props C13 C15
+//@ props C13 C15 C11
 //@ modifies nothing
-//@ ensures result != nil
+//@ ensures [a-new-templater-with-an-empty-cache] result != nil && typeis(result, *TextTemplater) && fresh(result.(*TextTemplater))
 
 //@ func (t *TextTemplater) getTemplate
 //@ props C11 C15
@@ -34,9 +34,9 @@ package templater
 //@ use htmltemplate "html/template"
 
 //@ func NewHTMLTemplater
-//@ props C13 C15
+//@ props C13 C15 C11
 //@ modifies nothing
-//@ ensures result != nil
+//@ ensures [a-new-templater-with-an-empty-cache] result != nil && typeis(result, *HTMLTemplater) && fresh(result.(*HTMLTemplater))
 
 //@ func (t *HTMLTemplater) getTemplate
 //@ props C11 C15
